@@ -47,3 +47,13 @@ Example C05_nonvacuous :
     [LEnter 0 0 CtxBg; LPanicHandler 0 0; LEnter 0 1 CtxBg; LEnter 1 0 CtxBg; LPanicHandler 1 0; LEnter 1 1 CtxBg] /\
   seqlocks s = [].
 Proof. vm_compute. auto. Qed.
+
+(* Over EVERY schedule of every program in which the only user code that panics is handler bodies (not the threads' own
+   top level, not hooks, not filters): no goroutine ever reaches the crashed state - "the panic does not reach the
+   publisher or crash the process".  Every panicking action in anybody's code is followed by the recover frame of the
+   handler invocation it belongs to, at every moment of every run. *)
+Theorem C05_handler_panics_never_crash : forall P cfg threads sched,
+  Ppanic P cfg -> (forall l, In l threads -> nopanicb l = true) ->
+  forall a c, assoc_get (code (fst (run P cfg (init_state threads) sched))) a = Some c -> ~ In ICrashed c.
+Proof. exact handler_panics_never_crash. Qed.
+Print Assumptions C05_handler_panics_never_crash.
